@@ -17,6 +17,7 @@ Proof. exact accepted_submit_fills_the_pool. Qed.
 Print Assumptions C08_accepted_submit_fills_the_pool.
 
 Theorem C08_structure :
-  ensure_running_tops_up_then_starts_manager = true /\ spawn_creates_exit_lock_and_starts = true.
-Proof. split; reflexivity. Qed.
+  ensure_running_tops_up_then_starts_manager = true /\ spawn_creates_exit_lock_and_starts = true
+  /\ clean_exit_reads_counters_after_the_pop_and_respawns_when_work_waits = true.
+Proof. repeat split; reflexivity. Qed.
 Print Assumptions C08_structure.
